@@ -127,6 +127,10 @@ def _setup(tier: str, seed: int) -> None:
         return
     sp = ps.standard_spaces(seed, tier, pairs="l0" if tier == "quick" else "l1")
     sp.append(ps.corpus_space())
+    tr = tablerow_cases()
+    sp.append(ps.SubSpace("tablerow-helpers", len(tr), lambda i: tr[i]))
+    cc = counting_cases()
+    sp.append(ps.SubSpace("read-counting-data", len(cc), lambda i: cc[i]))
     n = grammar.Names(seed)
     srcs = grammar.loader_sources(seed)
     root = seams.sandbox("verif_c03_")
@@ -142,6 +146,58 @@ def _setup(tier: str, seed: int) -> None:
         seed=seed,
         ops=grammar.ops(seed),
     )
+
+
+class CountingDrop(dict):  # type: ignore[type-arg]
+    """Data whose every read is observable: `hits` counts the lookups made so far (a condition evaluated twice shows)."""
+
+    def __init__(self) -> None:
+        super().__init__(k="v")
+        self.n = 0
+
+    def __getitem__(self, key: Any) -> Any:
+        self.n += 1
+        if key == "hits":
+            return self.n
+        return super().__getitem__(key)
+
+    def __contains__(self, key: Any) -> bool:
+        return key in ("hits", "k")
+
+
+def counting_cases() -> list[dict[str, Any]]:
+    srcs = [
+        "{% if false %}a{% elsif c.hits == 1 %}first{% elsif c.hits > 0 %}later{% else %}other{% endif %} n={{ c.hits }}",
+        "{% unless true %}a{% elsif c.hits == 1 %}first{% else %}other{% endunless %} n={{ c.hits }}",
+        "{% case c.hits %}{% when 1 %}one{% when 2 %}two{% else %}many{% endcase %} n={{ c.hits }}",
+        "{% for i in (1..2) %}{% if c.hits > 9 %}x{% elsif c.hits < 9 %}y{% endif %}{% endfor %} n={{ c.hits }}",
+        "{{ c.hits if c.hits == 1 else 'no' }} n={{ c.hits }}",
+        "{% if c.hits == 1 and c.hits == 2 %}and{% endif %}{% if c.hits > 99 or c.hits > 0 %}or{% endif %} n={{ c.hits }}",
+        "{% assign v = c.hits | plus: c.hits %}{{ v }} n={{ c.hits }}",
+        "{% for i in (1..c.hits) limit: c.hits %}{{ i }}{% endfor %} n={{ c.hits }}",
+        "{% capture z %}{{ c.hits }}{% endcapture %}{{ z }}{{ z }} n={{ c.hits }}",
+        "{% cycle c.hits, c.hits %}{% cycle c.hits, c.hits %} n={{ c.hits }}",
+        "{% with a: c.hits %}{{ a }}{{ a }}{% endwith %} n={{ c.hits }}",
+        "{% macro m x %}{{ x }}{{ x }}{% endmacro %}{% call m c.hits %} n={{ c.hits }}",
+        "{{ 'a${c.hits}b${c.hits}' }} n={{ c.hits }}",
+    ]
+    return [{"source": s_, "templates": {}, "data": {"c": "<counting>"}} for s_ in srcs]
+
+
+def _fresh(d: dict[str, Any]) -> dict[str, Any]:
+    return {k: (CountingDrop() if v == "<counting>" else v) for k, v in d.items()}
+
+
+def tablerow_cases() -> list[dict[str, Any]]:
+    """Every tablerow option value (cols 0 / nil / undefined / non-numeric included) x lengths, reading every helper."""
+    helpers = "".join("{{ tablerowloop." + h + " }}," for h in ("row", "col", "col0", "col_first", "col_last", "index", "index0", "rindex", "rindex0", "first", "last", "length"))
+    out = []
+    for cols in ("", " cols: 0", " cols: 1", " cols: 2", " cols: 3", " cols: nil", " cols: nosuch", " cols: 'x'", " cols: g", " cols: -1", " cols: 1.5"):
+        for opts in ("", " limit: 2", " offset: 1", " limit: 0", " limit: 3 offset: 1"):
+            src = "{% tablerow i in arr" + cols + opts + " %}{{ i }}:" + helpers + "{% endtablerow %}"
+            for arr in ([], [1], [1, 2], [1, 2, 3], [1, 2, 3, 4, 5], "ab", {"k": 1, "j": 2}):
+                out.append({"source": src, "templates": {}, "data": {"arr": arr, "g": 2}})
+    return out
 
 
 def plan(tier: str, seed: int):
@@ -225,8 +281,9 @@ def check_prog_case(case: dict[str, Any], res: ShardResult | None) -> list[tuple
         return out
     for d in datas:
         for mode in ("plain", "drops"):
-            dd = d if mode == "plain" else seams.wrap_data(d)
+            dd = _fresh(d) if mode == "plain" else seams.wrap_data(_fresh(d))
             s = sync_outcome(t.render, **dd)
+            dd = _fresh(d) if mode == "plain" else seams.wrap_data(_fresh(d))
             loop = VLoop()
             kind, val = loop.run_all([t.render_async(**dd)])[0]
             a = _classify(kind, val)
